@@ -20,7 +20,7 @@ type c13Case struct {
 }
 
 var c13Tokens = []string{"'", "\"", "\\", "%", "%%", "%v", "%d", "%s", "{", "}", "{{", "}}", "{{x}}", "\n", "\t", "`", "$", "$node", "$message", "$result", "#", ":", ",", "[", "\\n", "\\\"", "é", "日", "😀", "<", ">", "&", "|"}
-var c13Slots = []string{"profile", "validation", "message", "message+placeholder", "message+2placeholders", "in", "containsAll", "containsSome", "pattern-free-message-absent-value", "message+same-placeholder-twice", "message+same-placeholder-3-spellings"}
+var c13Slots = []string{"profile", "validation", "message", "message+placeholder", "message+2placeholders", "in", "containsAll", "containsSome", "pattern-free-message-absent-value", "message+same-placeholder-twice", "message+same-placeholder-3-spellings", "in-under-nested"}
 
 const c13Base = "Abc def"
 
@@ -40,6 +40,8 @@ func c13Build(assign map[string]string) (profile string, names map[string]string
 	vname := get("validation", "v1")
 	msg := "plain message"
 	switch {
+	case assign["placeholder-only"] != "":
+		msg = "{{" + assign["placeholder-only"] + "}}"
 	case assign["message"] != "":
 		msg = assign["message"]
 	case assign["message+placeholder"] != "":
@@ -64,6 +66,12 @@ func c13Build(assign map[string]string) (profile string, names map[string]string
 	path := "ex.p1"
 	if listSlot != "" {
 		path = "ex.val"
+	}
+	if v, ok := assign["in-under-nested"]; ok {
+		// the list constraint sits inside a nested validation (its code and trace are embedded in the outer rule)
+		path = "ex.self"
+		cons = M("nested", M("propertyConstraints", M("ex.val", M("in", []any{YQ(v), YQ("other")}))))
+		listSlot = "in"
 	}
 	top := M("profile", YQ(pname), "prefixes", M("ex", EX), "violation", []any{YQ(vname)},
 		"validations", M(vname, M("message", YQ(msg), "targetClass", "ex.T", "propertyConstraints", M(path, cons))))
@@ -96,6 +104,7 @@ func init() {
 }
 
 func c13Gen(tier string, emit func(c13Case)) {
+	emit(c13Case{Slot: "placeholder-only", Texts: []string{"ex.name", "ex.num", "ex.flag", "ex.missing", "ex.big"}})
 	for _, slot := range c13Slots {
 		for _, tok := range c13Tokens {
 			emit(c13Case{Slot: slot, Texts: c13Variants(tok)})
@@ -135,8 +144,9 @@ func c13Gen(tier string, emit func(c13Case)) {
 func c13Graph(special string) *Graph {
 	g := &Graph{}
 	// n0 fails minCount (no p1); its list value differs from the special one. n1 passes both.
-	g.Add(nid(0), EX+"T").P(EX+"name", "zero %d \"q\"").P(EX+"val", "different value")
-	n1 := g.Add(nid(1), EX+"T").P(EX+"name", "one").P(EX+"p1", "v")
+	g.Add(nid(0), EX+"T").P(EX+"name", "zero %d \"q\"").P(EX+"val", "different value").P(EX+"num", 7).P(EX+"flag", true).P(EX+"big", 123456789012)
+	g.Nodes[0].P(EX+"self", Ref(nid(0)))
+	n1 := g.Add(nid(1), EX+"T").P(EX+"name", "one").P(EX+"p1", "v").P(EX+"self", Ref(nid(1)))
 	if special != "" {
 		n1.P(EX+"val", special)
 	} else {
@@ -162,6 +172,9 @@ func c13Run(c *Ctx, cs c13Case) {
 		special := ""
 		if names["list"] != "" {
 			special = assign[names["list"]]
+		}
+		if v, ok := assign["in-under-nested"]; ok {
+			special = v
 		}
 		g := c13Graph(special)
 		data := g.FlatJSONLD()
